@@ -161,6 +161,7 @@ class Ctx:
         self.case = None
         self.notes = {}       # free counters (observed-outside-domain etc.)
         self.route_evals = {}
+        self.route_worst = {}
         self.region_override = None
 
     def begin(self, case):
@@ -176,6 +177,8 @@ class Ctx:
         r = route or self.case.route
         self.route_evals[r] = self.route_evals.get(r, 0) + 1
         ratio = (resid / tol) if tol > 0 else (0.0 if resid == 0 else float("inf"))
+        if not (ratio <= self.route_worst.get(r, 0.0)):
+            self.route_worst[r] = ratio if ratio == ratio else float("inf")
         if not (ratio <= c[1]):  # also catches nan
             c[1], c[2], c[3] = (ratio if ratio == ratio else float("inf")), resid, tol
 
